@@ -44,7 +44,7 @@ type c05Case struct {
 
 func genC05(t *rapid.T) c05Case {
 	c := c05Case{SamplesPerChunk: rapid.SampledFrom([]int{2, 3, 4, 120}).Draw(t, "spc"), NSeries: rapid.IntRange(1, 4).Draw(t, "nseries")}
-	ntx := rapid.IntRange(2, 4).Draw(t, "ntx")
+	ntx := rapid.IntRange(2, 5).Draw(t, "ntx")
 	next := make([]int64, c.NSeries)
 	for i := range next {
 		next[i] = 1000
@@ -59,19 +59,25 @@ func genC05(t *rapid.T) c05Case {
 		}
 		c.Txs = append(c.Txs, tx)
 	}
-	na := rapid.IntRange(6, 40).Draw(t, "nactions")
+	na := rapid.IntRange(8, 50).Draw(t, "nactions")
 	nq := 0
 	for i := 0; i < na; i++ {
-		switch rapid.IntRange(0, 9).Draw(t, "akind") {
+		k := rapid.IntRange(0, 9).Draw(t, "akind")
+		if i < 3 && k < 5 && rapid.Bool().Draw(t, "earlyopen") {
+			k = 5 // open queriers early so that they are older than most transactions
+		}
+		switch k {
 		case 0, 1, 2, 3, 4:
 			c.Actions = append(c.Actions, c05Action{K: "step", Tx: rapid.IntRange(0, ntx-1).Draw(t, "tx")})
 		case 5, 6:
 			c.Actions = append(c.Actions, c05Action{K: "open", Q: nq})
 			nq++
-		case 7, 8:
+		case 7:
 			if nq > 0 {
 				c.Actions = append(c.Actions, c05Action{K: "drain", Q: rapid.IntRange(0, nq-1).Draw(t, "q")})
 			}
+		case 8:
+			c.Actions = append(c.Actions, c05Action{K: "step", Tx: rapid.IntRange(0, ntx-1).Draw(t, "tx")})
 		default:
 			c.Actions = append(c.Actions, c05Action{K: "mmap"})
 		}
@@ -89,6 +95,8 @@ type c05Tx struct {
 	// committed[k]: sample k has been processed by Commit; stored[k]: it was in order then
 	nDone  int
 	stored []bool
+	// accepted lists the indexes (into the case's sample list) of the samples the appender accepted
+	accepted []int
 }
 
 type c05Querier struct {
@@ -165,15 +173,25 @@ func runC05(c c05Case, rec *ev.Rec) (err error) {
 		db.Close()
 	}()
 	ctx := context.Background()
-	// phase 1: every transaction appends its samples (nothing is visible before Commit)
+	// a transaction's appender is created (and its samples appended) at its first step, so
+	// that appenders are also created while queriers are open
 	for i, samples := range c.Txs {
-		tx := &c05Tx{app: db.Appender(ctx), parked: make(chan string), resume: make(chan struct{}), done: make(chan error, 1), stored: make([]bool, len(samples))}
-		txs[i] = tx
-		for _, s := range samples {
+		txs[i] = &c05Tx{parked: make(chan string), resume: make(chan struct{}), done: make(chan error, 1), stored: make([]bool, len(samples))}
+	}
+	begin := func(i int) error {
+		tx := txs[i]
+		tx.app = db.Appender(ctx)
+		for k, s := range c.Txs[i] {
 			if _, e := tx.app.Append(0, c05Labels(s.S), s.T, float64(s.V)); e != nil {
-				return fail("append tx %d %+v: %v", i, s, e)
+				// made out of order by a transaction that was created later but committed earlier:
+				// the sample is simply not part of this transaction
+				trace = append(trace, fmt.Sprintf("tx %d: append %+v rejected: %v", i, s, e))
+				continue
 			}
+			tx.accepted = append(tx.accepted, k)
 		}
+		trace = append(trace, fmt.Sprintf("tx %d: appender created, %d samples appended", i, len(c.Txs[i])))
+		return nil
 	}
 	seriesMax := map[int]int64{}
 	type commitEv struct {
@@ -183,9 +201,13 @@ func runC05(c c05Case, rec *ev.Rec) (err error) {
 	commitLog := map[int][]commitEv{}
 	noteSample := func(i int) {
 		tx := txs[i]
-		s := c.Txs[i][tx.nDone]
+		if tx.nDone >= len(tx.accepted) {
+			return
+		}
+		idx := tx.accepted[tx.nDone]
+		s := c.Txs[i][idx]
 		if m, ok := seriesMax[s.S]; !ok || s.T > m {
-			tx.stored[tx.nDone] = true
+			tx.stored[idx] = true
 			seriesMax[s.S] = s.T
 			commitLog[s.S] = append(commitLog[s.S], commitEv{i, s.T})
 		}
@@ -213,11 +235,21 @@ func runC05(c c05Case, rec *ev.Rec) (err error) {
 		return nil
 	}
 	chunkEvent := false
-	for step, a := range c.Actions {
+	actions := append([]c05Action(nil), c.Actions...)
+	for qi := 0; qi < len(c.Actions); qi++ {
+		actions = append(actions, c05Action{K: "drain", Q: qi}) // whatever is still open is read at the end
+	}
+	for step, a := range actions {
 		switch a.K {
 		case "step":
 			tx := txs[a.Tx]
 			if tx.finished {
+				continue
+			}
+			if tx.app == nil {
+				if e := begin(a.Tx); e != nil {
+					return e
+				}
 				continue
 			}
 			cur = tx
